@@ -46,6 +46,22 @@ template<unsigned F> struct Apply{
 // ---- builders: create the proxy with the operand value categories of the plan and pass it on
 #define A_ A
 #define B_ B
+// every pair of operand value categories is written out even where the library has (today) no overload that distinguishes them: an rvalue then
+// simply binds to the const reference, and an overload added later is exercised without touching the harness
+#define BIN9(F) switch(s.a.cat*3+s.b.cat){ \
+    case 0: k(F(A_,B_)); break; \
+    case 1: k(F(A_,std::move(B_))); break; \
+    case 2: k(F(A_,SU_vector(B_))); break; \
+    case 3: k(F(std::move(A_),B_)); break; \
+    case 4: k(F(std::move(A_),std::move(B_))); break; \
+    case 5: k(F(std::move(A_),SU_vector(B_))); break; \
+    case 6: k(F(SU_vector(A_),B_)); break; \
+    case 7: k(F(SU_vector(A_),std::move(B_))); break; \
+    default: k(F(SU_vector(A_),SU_vector(B_))); break; }
+#define F_SUB(p_,q_) ((p_)-(q_))
+#define F_ICOMM(p_,q_) squids::iCommutator(p_,q_)
+#define F_ACOMM(p_,q_) squids::ACommutator(p_,q_)
+#define F_EVOL(p_,q_) (p_).Evolve(q_,s.x)
 
 template<class K> void build(SU_vector& A,SU_vector& B,const Stmt& s,K k){
 #if STMT_KIND==0  /* E_ADD */
@@ -61,11 +77,7 @@ template<class K> void build(SU_vector& A,SU_vector& B,const Stmt& s,K k){
     default: k(SU_vector(A_)+SU_vector(B_)); break;
   }
 #elif STMT_KIND==1 /* E_SUB */
-  switch(s.a.cat){
-    case CAT_LVALUE: k(A_-B_); break;
-    case CAT_MOVE: k(std::move(A_)-B_); break;
-    default: k(SU_vector(A_)-B_); break;
-  }
+  BIN9(F_SUB)
 #elif STMT_KIND==2 /* E_NEG */
   switch(s.a.cat){
     case CAT_LVALUE: k(-A_); break;
@@ -85,20 +97,11 @@ template<class K> void build(SU_vector& A,SU_vector& B,const Stmt& s,K k){
     default: k(SU_vector(A_)*s.x); break;
   }
 #elif STMT_KIND==5 /* E_ICOMM */
-  switch(s.a.cat==CAT_TEMP?1:0){
-    case 0: k(squids::iCommutator(A_,B_)); break;
-    default: k(squids::iCommutator(SU_vector(A_),B_)); break;
-  }
+  BIN9(F_ICOMM)
 #elif STMT_KIND==6 /* E_ACOMM */
-  switch(s.b.cat==CAT_TEMP?1:0){
-    case 0: k(squids::ACommutator(A_,B_)); break;
-    default: k(squids::ACommutator(A_,SU_vector(B_))); break;
-  }
+  BIN9(F_ACOMM)
 #elif STMT_KIND==7 /* E_EVOL: a evolved by operator b over time x */
-  switch(s.a.cat==CAT_TEMP?1:0){
-    case 0: k(A_.Evolve(B_,s.x)); break;
-    default: k(SU_vector(A_).Evolve(B_,s.x)); break;
-  }
+  BIN9(F_EVOL)
 #elif STMT_KIND==8 /* E_FEVOL */
   switch(s.a.cat==CAT_TEMP?1:0){
     case 0: k(A_.Evolve(s.evolbuf)); break;
